@@ -11,12 +11,21 @@ QUERY = st.tuples(st.integers(0, 7), st.sampled_from(['none', 'none', 'none', 'n
                   st.sampled_from(['none', 'last', 'id', 'id', 'id', 'between']), st.integers(0, 9))
 
 
-def graph_strategy(selfloops=True, classes=('DynGraph', 'DynDiGraph'), max_ops=12, uni=(3, 5), tier='quick'):
-    kw = dict(classes=classes, max_ops=max_ops, min_ops=3, rejects=False, kinds=KINDS, node_kinds=('int', 'safestr'),
-              attrs=False, horizon=3, maxlen=3, uni=uni, bases=[0, 0, 1, -7, 1000, -10 ** 6, 10 ** 9])
+CHAIN_KINDS = ['add', 'add', 'add_from', 'star', 'recip', 'tpath', 'tpath', 'tpath', 'tpath', 'tpath']
+
+
+def graph_strategy(selfloops=True, classes=('DynGraph', 'DynDiGraph'), max_ops=12, uni=(3, 5), tier='quick', chains=False):
+    kw = dict(classes=classes, max_ops=max_ops, min_ops=3, rejects=False, kinds=CHAIN_KINDS if chains else KINDS,
+              node_kinds=('int', 'safestr'), attrs=False, horizon=3, maxlen=3, uni=uni,
+              bases=[0, 0, 1, -7, -3, -2, 1000, -10 ** 6, 10 ** 9])
     # two thirds of the graphs are free of self-loops: a self-loop on the root puts the query inside the
-    # footprint of the listed root_selfloop_in_window finding, where C13/C15 can say less
-    small = st.one_of(gen.history(selfloops=False, **kw), gen.history(selfloops=False, **kw), gen.history(**kw))
+    # footprint of the listed root_selfloop_in_window finding, where C13/C15 can say less.  One graph in
+    # seven is 'wide': few calls spread over instants 0..13, so that snapshot ids have one and two digits
+    # (occurrence names such as 1_1 and 1_10) and lie far apart.
+    wide = dict(kw, horizon=12, max_ops=min(max_ops, 7), bases=[0, 1, -5], maxlen=2)
+    small = st.one_of(gen.history(selfloops=False, **kw), gen.history(selfloops=False, **kw), gen.history(**kw),
+                      gen.history(selfloops=False, **kw), gen.history(selfloops=False, **kw), gen.history(**kw),
+                      gen.history(selfloops=False, **wide))
     if tier != 'thorough':
         return small
     # thorough: one more node, one more instant, longer histories (path counts grow exponentially:
